@@ -102,18 +102,6 @@ func seqN(n int) []int {
 	return s
 }
 
-func partialOverlap(secs []fwgen.TdxSection, banks []reftdx.Range) bool {
-	for _, b := range banks {
-		for _, s := range secs {
-			lo, hi := max64(b.Start, s.MemoryBase), min64(b.Start+b.Length, s.MemoryBase+s.MemorySize)
-			if lo < hi && !(b.Start >= s.MemoryBase && b.Start+b.Length <= s.MemoryBase+s.MemorySize) {
-				return true
-			}
-		}
-	}
-	return false
-}
-
 func max64(a, b uint64) uint64 {
 	if a > b {
 		return a
@@ -175,34 +163,55 @@ func layoutSig(secs []fwgen.TdxSection) string {
 	return fmt.Sprintf("fv=%d temp=%d noext=%d", fv, temp, noext)
 }
 
-const diffRule = "generated valid TDVF layouts (1-16 page images, 1-3 firmware volumes tiling the image, one TD-HOB of 2-16 pages, 0-6 TempMem sections, EXTEND_MR per volume, declared order shuffled, memory bases disjoint anywhere incl. straddling 4 GiB) x RAM banks {six GCE shapes; 0-5 generated disjoint banks with boundaries at section boundaries +-1 page, zero-length banks, shuffled} x mode {default, measure-all, measure-all+early-accept}; oracle: tdx.MRTD == independent reference (own record stream, own PI HOB encoder, boundary-point interval subtraction), and the TD-HOB region bytes returned by ovmf.ExtractMaterialGuestPhysicalRegions* == reference HOB; non-trivial = a bank partially overlaps a section, or >=2 TempMem, or a non-extended volume in default mode, or a multi-node GCE shape; distinct = (layout signature, bank signature, mode, order hash)"
+const diffRule = "generated valid TDVF layouts (1-16 page images, 1 in 6 up to 48 pages; 1-3 firmware volumes tiling the image, one TD-HOB of 1-16 pages, 0-6 TempMem sections, declared order shuffled, memory bases disjoint anywhere incl. straddling 4 GiB), widened in this package: attribute bits other than EXTEND_MR on any section, EXTEND_MR on the TD-HOB (any mode) and on TempMem (legacy modes), 1-2 zero-length TempMem sections at section boundaries and inside/outside banks, one-page TD-HOB, 84/85/86-110 sections in total with one-page TempMems at 5-800 GiB (hand-off block exactly filling one page, overflowing it by one descriptor, spanning several pages) x RAM banks {six GCE shapes through tdx.LaunchOptionsDefaultTDHOBBug; 0-5 generated disjoint banks with boundaries at section boundaries +-1 page, split into abutting banks, zero-length banks anywhere, shuffled} x mode {default 1/5, measure-all 2/5, measure-all+early-accept 2/5}; oracle: tdx.MRTD == independent reference (own record stream, own PI HOB encoder, boundary-point interval subtraction, for GCE shapes the harness's own bank table), and the TD-HOB region returned by ovmf.ExtractMaterialGuestPhysicalRegions* (located by its guest range) == reference HOB; a layout whose hand-off block does not fit its section is counted invalid/hob-overflow and not judged; two attempts that do not return within 30 s + 60 s are reported as non-termination; non-trivial = the case has at least one feature class that exercises a clause of the statement (feat/*: subtraction changes the bank list, bank edge inside a section, unaccepted memory above or across 4 GiB, non-extended volume or extended TD-HOB in default mode, extra attribute bits, zero-length section, exactly-full or multi-page hand-off block, multi-node shape; the classes one-page TD-HOB, image over 64 KiB, zero-length or abutting banks, section above 5 GiB and extended TempMem only label input shapes); distinct = (section counts, declared type order, bank signature, mode, feature set)"
 
 func TestMrtdAgreesWithReference(t *testing.T) {
 	const name = "mrtd/differential"
 	ev.Rule(name, diffRule)
 	checks(ev.Scale(1500, 12000))
 	rapid.Check(t, func(t *rapid.T) {
-		l := fwgen.GenValid(t, fwgen.Options{MinPages: 1, MaxPages: 16, WantTdx: true, WantSev: rapid.Bool().Draw(t, "alsoSev"), MaxSevSections: 4, MaxTempMem: 6})
+		maxPages := 16
+		if rapid.IntRange(0, 5).Draw(t, "bigImage") == 0 {
+			maxPages = 48
+		}
+		l := fwgen.GenValid(t, fwgen.Options{MinPages: 1, MaxPages: maxPages, WantTdx: true, WantSev: rapid.Bool().Draw(t, "alsoSev"), MaxSevSections: 4, MaxTempMem: 6})
+		mode := rapid.SampledFrom([]reftdx.Mode{reftdx.ModeDefault, reftdx.ModeMeasureAll, reftdx.ModeMeasureAll, reftdx.ModeMeasureAllEarlyAccept, reftdx.ModeMeasureAllEarlyAccept}).Draw(t, "mode")
+		feat := mutateLayout(t, l, mode)
+		fwgen.Assemble(t, l)
 		img := l.Spec.Build()
-		mode := reftdx.Mode(rapid.IntRange(0, 2).Draw(t, "mode"))
 		var banks []reftdx.Range
 		bankSig := "none"
-		multiNode := false
-		if mode != reftdx.ModeDefault {
+		abut := false
+		opts := optsFor(mode, nil)
+		if mode != reftdx.ModeDefault && !feat.forceNoBanks {
 			if rapid.IntRange(0, 3).Draw(t, "useShape") == 0 {
 				shape := rapid.SampledFrom(shapes).Draw(t, "shape")
-				banks = fromGPR(tdx.LaunchOptionsDefaultTDHOBBug(shape).GuestRAMBanks)
+				// the implementation maps the shape to banks itself; the reference uses the harness's table
+				o := *tdx.LaunchOptionsDefaultTDHOBBug(shape)
+				o.MeasureAllRegions = true
+				o.DisableUnacceptedMemory = mode == reftdx.ModeMeasureAllEarlyAccept
+				opts = &o
+				banks = pinnedBanks(shape)
 				bankSig = shape
-				multiNode = shapeGiB[shape] > 176
 			} else {
 				banks, bankSig = genBanks(t, l.Tdx)
+				banks, abut = widenBanks(t, banks)
+				bankSig = fmt.Sprintf("gen%d", len(banks))
+				opts = optsFor(mode, banks)
 			}
 		}
 		want, wantHob, rerr := reftdx.MRTD(img, toRef(l.Tdx), banks, mode)
 		if rerr != nil {
-			t.Skip("TD-HOB would overflow its section: not a valid layout")
+			// the hand-off block does not fit the TD-HOB section: not a valid layout, nothing to judge
+			ev.Class(name, "invalid/hob-overflow")
+			return
 		}
-		got, err, pan := mrtd(optsFor(mode, banks), img)
+		res, hung := mrtdGuarded(opts, img)
+		if hung {
+			ev.Violation(t, "C05/no-termination", "tdx.MRTD did not return within %v on a valid layout (mode %s, sections %+v, banks %+v)", guardFirst+guardSecond, modeNames[mode], l.Tdx, banks)
+			return
+		}
+		got, err, pan := res.d, res.err, res.pan
 		if pan != nil {
 			ev.Violation(t, "C05/valid-layout-panic", "tdx.MRTD panicked on a valid layout: %v (sections %+v banks %+v)", pan, l.Tdx, banks)
 			return
@@ -211,14 +220,21 @@ func TestMrtdAgreesWithReference(t *testing.T) {
 			ev.Violation(t, "C05/valid-layout-rejected", "tdx.MRTD rejected a valid layout: %v (sections %+v banks %+v mode %s)", err, l.Tdx, banks, modeNames[mode])
 			return
 		}
-		regions, rgerr := regionsFor(mode, img, banks)
-		hobOK := true
-		if rgerr == nil {
-			for i, s := range l.Tdx {
-				if s.Type == fwgen.TdxTDHOB && i < len(regions) {
-					hobOK = bytes.Equal(regions[i].HostBuffer, wantHob)
+		// TD-HOB bytes: localises a disagreement; judged only when the region can be identified
+		hobOK, hobSeen := true, false
+		if regions, rgerr := regionsFor(mode, img, banks); rgerr == nil {
+			for _, s := range l.Tdx {
+				if s.Type != fwgen.TdxTDHOB {
+					continue
+				}
+				if r := findRegion(regions, s); r != nil {
+					hobSeen = true
+					hobOK = bytes.Equal(r.HostBuffer, wantHob)
 				}
 			}
+		}
+		if !hobSeen {
+			ev.Class(name, "inconclusive/td-hob-region-not-identified")
 		}
 		if got != want {
 			where := "record-stream"
@@ -232,24 +248,27 @@ func TestMrtdAgreesWithReference(t *testing.T) {
 			ev.Violation(t, "C05/td-hob-differs", "TD-HOB bytes differ from the reference although MRTD agrees (mode %s, sections %+v, banks %+v)", modeNames[mode], l.Tdx, banks)
 			return
 		}
-		again, _, _ := mrtd(optsFor(mode, banks), img)
+		again, _, _ := mrtd(opts, img)
 		if again != got {
 			ev.Violation(t, "C05/nondeterministic", "two calls differ")
 			return
 		}
-		temp, noext := 0, 0
-		for _, s := range l.Tdx {
-			if s.Type == fwgen.TdxTempMem {
-				temp++
-			}
-			if (s.Type == fwgen.TdxBFV || s.Type == fwgen.TdxCFV) && s.Attributes&1 == 0 {
-				noext++
+		feats := caseFeatures(l.Tdx, banks, mode, feat, len(img)/4096, abut)
+		if bankClass(bankSig) == "gce-shape" && len(shapeNodesGiB[bankSig]) > 1 {
+			feats = append(feats, "multi-node-shape")
+		}
+		core := false // features that exercise a clause of the statement (the others only label input shapes)
+		for _, f := range feats {
+			ev.Class(name, "feat/"+f)
+			switch f {
+			case "td-hob-one-page", "image-over-64k", "zero-len-bank", "abutting-banks", "section-above-5g", "tempmem-extended":
+			default:
+				core = true
 			}
 		}
-		nontrivial := partialOverlap(l.Tdx, banks) || temp >= 2 || (noext > 0 && mode == reftdx.ModeDefault) || multiNode
-		oh := fmt.Sprintf("%x", hashStr(fmt.Sprint(l.Tdx, banks)))
-		ev.Case(name, nontrivial, layoutSig(l.Tdx)+"|"+bankSig+"|"+modeNames[mode]+"|"+oh, modeNames[mode]+"/"+bankClass(bankSig), func() any {
-			return map[string]any{"pages": len(img) / 4096, "sections": l.Tdx, "banks": banks, "mode": modeNames[mode], "mrtd": hex.EncodeToString(got[:])}
+		canon := layoutSig(l.Tdx) + "|" + orderSig(l.Tdx) + "|" + bankSig + "|" + modeNames[mode] + "|" + fmt.Sprint(feats)
+		ev.Case(name, core, canon, modeNames[mode]+"/"+bankClass(bankSig), func() any {
+			return map[string]any{"pages": len(img) / 4096, "sections": l.Tdx, "banks": banks, "mode": modeNames[mode], "features": feats, "mrtd": hex.EncodeToString(got[:])}
 		})
 	})
 }
@@ -262,14 +281,6 @@ func bankClass(sig string) string {
 		return "no-banks"
 	}
 	return "gce-shape"
-}
-
-func hashStr(s string) uint32 {
-	h := uint32(2166136261)
-	for i := 0; i < len(s); i++ {
-		h = (h ^ uint32(s[i])) * 16777619
-	}
-	return h
 }
 
 // intervals on a small line
@@ -433,7 +444,7 @@ func invariants(res, secs, banks []reftdx.Range) string {
 
 func TestShapesAndPinned(t *testing.T) {
 	const name = "shapes+pinned"
-	ev.Rule(name, "the repository's 2 MiB CleanExample firmware x {default; six GCE shapes x (measure-all, measure-all+early-accept)}: implementation == reference; the suite's pinned MRTD equals both for the default mode; each shape's RAM banks are ascending, disjoint, leave [3 GiB, 4 GiB-2 MiB) uncovered and sum to the shape's size plus the 2 MiB firmware window; tdx.UnsignedTDX lists one row per shape (+early accept) plus the default row with these values; all non-trivial; distinct = (shape, mode)")
+	ev.Rule(name, "the repository's 2 MiB CleanExample firmware x {default; six GCE shapes x (measure-all, measure-all+early-accept)}: tdx.MRTD with the options of tdx.LaunchOptionsDefaultTDHOBBug(shape) == reference over the harness's own bank table (3 GiB below the hole, the 2 MiB firmware window below 4 GiB, then the per-node sizes observed on the unchanged tree); the suite's pinned MRTD equals both for the default mode; each shape's RAM banks from the implementation equal the harness's table as a set of non-empty ranges; every row of tdx.UnsignedTDX (all shapes, early accept) carries the reference value of its (ram_gib, early_accept) label; all non-trivial (banks cover sections wholly and partly, a non-extended volume in default mode); distinct = (shape, mode)")
 	img := fakeovmf.CleanExample(t, 2*1024*1024)
 	secs := []reftdx.Section{
 		{DataOffset: 0x20000, DataSize: 0x1e0000, MemoryBase: 0xffe20000, MemorySize: 0x1e0000, Type: 0, Attributes: 1},
@@ -445,7 +456,12 @@ func TestShapesAndPinned(t *testing.T) {
 	}
 	pinned, _ := hex.DecodeString("6e540be4917f24f74cc3292b59803d06dc7c38eb4a3c1fd6be9c735ba74bb7a23e25f98da94779d17508b243e4fb582b")
 	got, err, pan := mrtd(tdx.LaunchOptionsDefault(""), img)
-	want, _, _ := reftdx.MRTD(img, secs, nil, reftdx.ModeDefault)
+	want, _, rerr := reftdx.MRTD(img, secs, nil, reftdx.ModeDefault)
+	if rerr != nil {
+		ev.Note("shapes+pinned: the reference does not accept the CleanExample layout (%v); sub-check inconclusive", rerr)
+		ev.Class(name, "inconclusive/reference-rejects")
+		return
+	}
 	if pan != nil || err != nil || got != want {
 		ev.Violation(t, "C05/mrtd-differs/pinned", "CleanExample default: got %x err %v panic %v, reference %x", got, err, pan, want)
 	} else if !bytes.Equal(got[:], pinned) {
@@ -454,50 +470,52 @@ func TestShapesAndPinned(t *testing.T) {
 	ev.Case(name, true, "default", "default", func() any { return map[string]any{"mode": "default", "mrtd": hex.EncodeToString(got[:])} })
 	rows := map[string][]byte{}
 	for _, shape := range shapes {
-		banks := fromGPR(tdx.LaunchOptionsDefaultTDHOBBug(shape).GuestRAMBanks)
-		// bank layout
-		var sum uint64
-		for i, b := range banks {
-			if i > 0 && banks[i-1].Start+banks[i-1].Length > b.Start {
-				ev.Violation(t, "C05/shape-banks-overlap", "%s banks %v", shape, banks)
-			}
-			if max64(b.Start, 3<<30) < min64(b.Start+b.Length, (4<<30)-(2<<20)) {
-				ev.Violation(t, "C05/shape-banks-cover-mmio-hole", "%s banks %v", shape, banks)
-			}
-			sum += b.Length
-		}
-		if sum != shapeGiB[shape]<<30+(2<<20) {
-			ev.Violation(t, "C05/shape-banks-size", "%s banks sum to %#x, want %d GiB + 2 MiB", shape, sum, shapeGiB[shape])
+		implBanks := nonZero(fromGPR(tdx.LaunchOptionsDefaultTDHOBBug(shape).GuestRAMBanks))
+		banks := pinnedBanks(shape)
+		if !equalRanges(implBanks, nonZero(banks)) {
+			ev.Violation(t, "C05/shape-banks-differ", "%s: implementation's RAM banks %v, harness table %v", shape, implBanks, banks)
 		}
 		for _, mode := range []reftdx.Mode{reftdx.ModeMeasureAll, reftdx.ModeMeasureAllEarlyAccept} {
-			got, err, pan := mrtd(optsFor(mode, banks), img)
+			o := *tdx.LaunchOptionsDefaultTDHOBBug(shape)
+			o.MeasureAllRegions = true
+			o.DisableUnacceptedMemory = mode == reftdx.ModeMeasureAllEarlyAccept
+			got, err, pan := mrtd(&o, img)
 			want, _, rerr := reftdx.MRTD(img, secs, banks, mode)
 			if rerr != nil {
-				t.Fatalf("harness: %v", rerr)
+				ev.Note("shapes+pinned: the reference rejects CleanExample with the banks of %s (%v); case inconclusive", shape, rerr)
+				ev.Class(name, "inconclusive/reference-rejects")
+				continue
 			}
 			if pan != nil || err != nil || got != want {
 				ev.Violation(t, "C05/mrtd-differs/pinned", "CleanExample %s %s: got %x err %v panic %v, reference %x", shape, modeNames[mode], got, err, pan, want)
 				continue
 			}
-			rows[fmt.Sprintf("%d/%v", shapeGiB[shape], mode == reftdx.ModeMeasureAllEarlyAccept)] = got[:]
+			rows[fmt.Sprintf("%d/%v", shapeGiB[shape], mode == reftdx.ModeMeasureAllEarlyAccept)] = want[:]
 			ev.Case(name, true, shape+modeNames[mode], modeNames[mode], func() any {
 				return map[string]any{"shape": shape, "mode": modeNames[mode], "mrtd": hex.EncodeToString(got[:])}
 			})
 		}
 	}
-	rows["0/false"] = got[:]
-	u, uerr := tdx.UnsignedTDX(img, &tdx.EndorsementRequest{Svn: 3, IncludeEarlyAccept: true, MachineShapes: shapes})
+	rows["0/false"] = want[:]
+	u, uerr := tdx.UnsignedTDX(img, &tdx.EndorsementRequest{Svn: 3, IncludeEarlyAccept: true, MachineShapes: append([]string(nil), shapes...)})
 	if uerr != nil {
 		ev.Violation(t, "C05/unsigned-tdx-error", "UnsignedTDX: %v", uerr)
 		return
 	}
 	if len(u.Measurements) != 2*len(shapes)+1 {
-		ev.Violation(t, "C05/unsigned-tdx-rows", "UnsignedTDX returned %d rows, want %d", len(u.Measurements), 2*len(shapes)+1)
+		// the row set is C06's subject; here only the values of the rows that are present are judged
+		ev.Note("shapes+pinned: UnsignedTDX returned %d rows for %d shapes with early accept", len(u.Measurements), len(shapes))
+		ev.Class(name, "inconclusive/row-count")
 	}
 	for _, m := range u.Measurements {
 		k := fmt.Sprintf("%d/%v", m.RamGib, m.EarlyAccept)
-		if !bytes.Equal(rows[k], m.Mrtd) {
-			ev.Violation(t, "C05/unsigned-tdx-differs", "UnsignedTDX row %s = %x, reference %x", k, m.Mrtd, rows[k])
+		ref, ok := rows[k]
+		if !ok {
+			ev.Class(name, "inconclusive/unknown-row-label")
+			continue
+		}
+		if !bytes.Equal(ref, m.Mrtd) {
+			ev.Violation(t, "C05/unsigned-tdx-differs", "UnsignedTDX row %s = %x, reference %x", k, m.Mrtd, ref)
 		}
 	}
 }
